@@ -105,7 +105,9 @@ def opC18Hostline (args : List W) : String :=
   | _ => "bad-arity"
 
 /-- `c18.newrule <line> <addr table> <dn table>`: what `NewRule` makes of the line
-    (`skip` | `cos` | `net` | H record).  Spec: for lines outside the carve-out, the hosts reference. -/
+    (`skip` | `cos` | `net` | H record).  Spec: the hosts reference, for every line the SYNTACTIC test
+    `hostLineOutside` does not exclude (it never looks behind the comment sign: comments with `$$`, `$@$`,
+    ` ##` … are compared; theorem `c18_not_comment_not_cosmetic`). -/
 def opC18Newrule (args : List W) : String :=
   match args with
   | [line, addrs, dns] =>
@@ -119,7 +121,7 @@ def opC18Newrule (args : List W) : String :=
         let m := match newRuleKind ext dn line 1 with
           | .skipped => "skip" | .cosmetic => "cos" | .network => "net" | .crash => "PANIC"
           | .host r => tok (encHostRule r)
-        let s := if line.isEmpty || hostLineCarveOut line then "-" else
+        let s := if line.isEmpty || hostLineOutside line then "-" else
           match specHostRecord ext dn line with
           | "err" => "net"
           | r => r
@@ -144,7 +146,7 @@ def opC18Dns (args : List W) : String :=
         let m := match newRuleKind ext dn line 1 with
           | .host r => tok (fmt fun q => (hostRuleMatches r q && r.ip.is4, hostRuleMatches r q && !r.ip.is4))
           | _ => "nohost"
-        let s := if line.isEmpty || hostLineCarveOut line then "-" else
+        let s := if line.isEmpty || hostLineOutside line then "-" else
           match specHostLine ext dn line with
           | some (names, a) => tok (fmt (specHostAnswer names a))
           | none => "nohost"
